@@ -641,7 +641,12 @@ SCALAR_SWAPS = [N.s_int(1), N.s_str('x'), N.s_float(1.5), N.s_bool(True),
                 N.s_str('true'), N.s_int('0x1F'), ['s', S.TAG_FLOAT, '1e5'],
                 ['s', S.TAG_INT, 'abc'], ['s', S.TAG_INT, '0x_'],
                 ['s', S.TAG_INT, ''], ['s', S.TAG_FLOAT, 'x'],
-                ['s', S.TAG_BOOL, 'maybe'], ['s', S.TAG_TS, 'noon']]
+                ['s', S.TAG_BOOL, 'maybe'], ['s', S.TAG_TS, 'noon'],
+                # words that name attributes every class / enum / str has
+                N.s_str('mro'), N.s_str('__doc__'), N.s_str('__members__'),
+                N.s_str('name'), N.s_str('value'), N.s_str('__class__'),
+                N.s_str('_member_map_'), N.s_str('__init__'),
+                N.s_str('__module__'), N.s_str('upper')]
 
 
 def mutate(spec, rng, class_names=(), key_pool=()):
